@@ -69,11 +69,16 @@ type nsxCfgT struct {
 	services map[string]string   // id suffix -> port ("" = default from name)
 	extraSvc []string
 	names    map[string]string // rename of group references g:X -> name
+	exprId   string            // id of the address expression of every group ("" = "id", what Netspoc writes)
 }
 
 var nsxAddrs = []string{"10.1.1.10", "10.1.1.20", "10.1.1.30", "10.1.1.40", "10.1.1.50"}
 
 func nsxJSON(c nsxCfgT) string {
+	exprID := "id"
+	if c.exprId != "" {
+		exprID = c.exprId
+	}
 	usedG := map[string]bool{}
 	usedS := map[string]bool{}
 	ref := func(s string) string {
@@ -136,7 +141,7 @@ func nsxJSON(c nsxCfgT) string {
 			addrs = []string{"10.1.1.10", "10.1.1.20"}
 		}
 		groups = append(groups, map[string]any{"id": "Netspoc-" + g, "expression": []any{
-			map[string]any{"id": "id", "resource_type": "IPAddressExpression", "ip_addresses": addrs}}})
+			map[string]any{"id": exprID, "resource_type": "IPAddressExpression", "ip_addresses": addrs}}})
 	}
 	var svcs []any
 	var snames []string
@@ -221,7 +226,7 @@ func withGroups(c nsxCfgT, grp map[string][]string) nsxCfgT {
 
 func nsxGroupSpace(name string, universe int) *nsxSpace {
 	nsub := int64(1<<uint(universe)) - 1
-	const variants = 6
+	const variants = 7
 	set := func(mask int) []string {
 		var l []string
 		for i := 0; i < universe; i++ {
@@ -261,6 +266,8 @@ func nsxGroupSpace(name string, universe int) *nsxSpace {
 			dev.groups = map[string][]string{"g7": set(dm), "gA": {"10.7.7.7"}}
 			tgt.policies["v1"] = []nsxRuleT{r1, r2}
 			tgt.groups = map[string][]string{"gA": set(tm), "gB": {"10.7.7.7"}}
+		case 6: // the device group was made by hand or in the UI: its expression has another id
+			dev.exprId = "c0ffee00-4a2b-4c1d-9e8f-001122334455"
 		case 5: // two target rules share one group, device has two groups
 			r2t := r2
 			r2t.dst = "g:gA"
@@ -768,7 +775,7 @@ func SelftestNSX() (ok, unsupported int, bad []string) {
 func init() {
 	registerSharded("C04", c04Worker, func(tier string) core.Meta {
 		return core.Meta{ID: "C04", Level: "model_checking",
-			Rule: "states = distinct manager states of the NSX model; enumerated: all pairs of rule subsets of a 6-rule alphabet (two rules sharing a sequence_number, differing in direction/action/logged/tag), all pairs of group address sets over 4/5 addresses x naming variants (renamed, shared, duplicated left-overs, id clash, two rules sharing a group), spaces clash (id of an edited device group re-used by an inserted rule) and two-groups (two tying rules with source and destination groups over device groups gA,gB and target groups gA,gB,gC with changed contents), targets of IPv4+IPv6+raw parts with three policies (merged target, shared with C18), service variants (changed in place, unused, new), policy structures, corpus product of nsx.t, chain of approves; transition = real planner; each REST call is executed on the model; oracle: rule multiset per policy equal with groups as address sets and services by definition, no left-over Netspoc service/unused group, second compare silent, empty script only for an equivalent manager",
+			Rule: "states = distinct manager states of the NSX model; enumerated: all pairs of rule subsets of a 6-rule alphabet (two rules sharing a sequence_number, differing in direction/action/logged/tag), all pairs of group address sets over 4/5 addresses x naming variants (renamed, shared, duplicated left-overs, id clash, two rules sharing a group, address expression with an id other than the one Netspoc writes), space ids (device rules r1, r1-1, r1-2, r2), spaces clash (id of an edited device group re-used by an inserted rule) and two-groups (two tying rules with source and destination groups over device groups gA,gB and target groups gA,gB,gC with changed contents), targets of IPv4+IPv6+raw parts with three policies (merged target, shared with C18), service variants (changed in place, unused, new), policy structures, corpus product of nsx.t, chain of approves; transition = real planner; each REST call is executed on the model; oracle: rule multiset per policy equal with groups as address sets and services by definition, no left-over Netspoc service/unused group, second compare silent, empty script only for an equivalent manager",
 			Assumptions: []string{"NSX model: PUT creates (an existing object needs _revision), PATCH merges, DELETE refuses referenced objects, POST ?action=add/remove refuse present/absent addresses",
 				"only the documented rule attributes are compared (the tool drops unknown ones when parsing)"},
 			Bounds: map[string]any{"quick": "groups over 4 addresses", "thorough": "groups over 5 addresses, chain depth 3"},
